@@ -271,3 +271,41 @@ def evalscript_step(stack: ListOf(Bytes), scriptIn: Bytes(cls=CScript), txTo: An
         and pbegincodehash == step_cs(sop, head(vfExec), head(pbegincodehash), sop_pc)))
     raises(EvalScriptError)
     raises(CScriptInvalidError)
+
+
+@contract('bitcoin.core.scripteval:_CheckMultiSig', name='multisig_matching', prop=P6)
+def multisig_matching(opcode: OneOf(0xae, 0xaf), script: Bytes(cls=CScript), stack: ListOf(Bytes), txTo: Any,
+                      inIdx: Int, flags: FlagSet(**MS_FLAGS), err_raiser: Raiser, nOpCount: ListOf(Int)):
+    """CHECKMULTISIG(VERIFY) semantics: with n = top element (0..20), the n keys below it, m = next element
+    (0..n), the m signatures below and one extra element: every signature is removed from the subscript, the
+    signatures are matched in order against the keys (specs/interp.py msig); CHECKMULTISIG replaces the
+    n + m + 3 elements by true/false accordingly, CHECKMULTISIGVERIFY removes them and fails when false"""
+    requires(len(nOpCount) == 1 and 0 <= nOpCount[0] and nOpCount[0] <= 201)
+    option(modifies=['stack', 'nOpCount'], prefer=['cast_bignum_c', 'checksig_named', 'find_and_delete_named'],
+           only=['cast_bignum_c', 'checksig_named', 'find_and_delete_named'])
+    loopvar(0, 'script', Bytes(cls=CScript))
+    invariant(0, script == fad_sigs(pre(script), stack, isig, _k) and stack == pre(stack))
+    hint(0, 'entry', unfold(fad_sigs(script, stack, isig, 0)))
+    hint(0, 'body_end', unfold(fad_sigs(pre(script), stack, isig, _k)))
+    invariant(1, ikey + keys_count == pre(ikey) + pre(keys_count) and isig + sigs_count == pre(isig) + pre(sigs_count)
+              and 0 <= sigs_count and 0 <= keys_count and sigs_count <= pre(sigs_count)
+              and implies(success, sigs_count <= keys_count)
+              and len(stack) == pre(len(stack)) and i == pre(i) and ikey >= 2 and isig >= pre(isig)
+              and stack == pre(stack) and script == pre(script))
+    invariant(1, implies(opcode == 0xaf, success))
+    invariant(1, implies(success, msig(stack, isig, sigs_count, ikey, keys_count, script, inIdx)
+                         == msig(stack, pre(isig), pre(sigs_count), pre(ikey), pre(keys_count), script, inIdx))
+              and implies(not success, not msig(stack, pre(isig), pre(sigs_count), pre(ikey), pre(keys_count), script, inIdx)))
+    hint(1, 'body', unfold(msig(stack, isig, sigs_count, ikey, keys_count, script, inIdx)))
+    hint(1, 'exit', unfold(msig(stack, isig, sigs_count, ikey, keys_count, script, inIdx)))
+    hint(1, 'exit', check(success == msig(stack, pre(isig), pre(sigs_count), pre(ikey), pre(keys_count), script, inIdx)))
+    decreases(1, keys_count)
+    invariant(2, i >= 1 and len(stack) == pre(len(stack)) - (pre(i) - i) and len(stack) >= i
+              and stack == pre(stack)[:len(stack)])
+    decreases(2, i)
+    raises(EvalScriptError)
+    raises(CScriptInvalidError)
+    ensures(len(stack) == old(len(stack)) - (msig_n(old(stack)) + msig_m(old(stack)) + 3) + ite(opcode == 0xae, 1, 0))
+    ensures(implies(opcode == 0xae, stack[len(stack) - 1] == ite(msig_result(old(stack), script, inIdx), b'\x01', b'')))
+    ensures(implies(opcode == 0xaf, msig_result(old(stack), script, inIdx)))
+    ensures(stack[:len(stack) - ite(opcode == 0xae, 1, 0)] == old(stack)[:len(stack) - ite(opcode == 0xae, 1, 0)])
